@@ -674,7 +674,7 @@ package tacquito
 //@   requires c != nil && c.Conn != nil && c.Reader != nil && !c.proxy
 //@   taints[C18] c.secret 4
 //@   requires[C05] ghost.sync == 1
-//@   modifies ghost.inPos, ghost.nwrites, ghost.written, ghost.md5acc, ghost.gauge, ghost.armed, ghost.dead, ghost.reads, ghost.handled, ghost.replies, ghost.closed, ghost.sync, ghost.hcalls, ghost.authorStatus, ghost.authenPass, ghost.acctStatus, ghost.sinkWrites, ghost.sinkAtReply, ghost.scopeArg
+//@   modifies ghost.inPos, ghost.nwrites, ghost.written, ghost.md5acc, ghost.gauge, ghost.armed, ghost.dead, ghost.reads, ghost.handled, ghost.replies, ghost.closed, ghost.sync, ghost.hcalls, ghost.authorStatus, ghost.authenPass, ghost.acctStatus, ghost.sinkWrites, ghost.sinkAtReply, ghost.scopeArg, ghost.cmpOK, ghost.cmpCalls, ghost.lookups, ghost.lookedUp
 //@   ensures[C07,C17] ghost.closed == old(ghost.closed) + 1
 //@   ensures[C07] ghost.handled - old(ghost.handled) <= ghost.reads - old(ghost.reads)
 //@   ensures[C07] ghost.replies - old(ghost.replies) == ghost.handled - old(ghost.handled)
@@ -704,7 +704,7 @@ package tacquito
 //@   ensures[C18] true
 //@   requires s != nil && s.loggerProvider != nil && s.SecretProvider != nil && ctx != nil && conn != nil && !s.proxy
 //@   requires[C05] ghost.sync == 1
-//@   modifies s.waitGroup.active, ghost.inPos, ghost.nwrites, ghost.written, ghost.md5acc, ghost.gauge, ghost.armed, ghost.dead, ghost.reads, ghost.handled, ghost.replies, ghost.closed, ghost.wgDones, ghost.sync, ghost.hcalls, ghost.authorStatus, ghost.authenPass, ghost.acctStatus, ghost.sinkWrites, ghost.sinkAtReply, ghost.scopeArg
+//@   modifies s.waitGroup.active, ghost.inPos, ghost.nwrites, ghost.written, ghost.md5acc, ghost.gauge, ghost.armed, ghost.dead, ghost.reads, ghost.handled, ghost.replies, ghost.closed, ghost.wgDones, ghost.sync, ghost.hcalls, ghost.authorStatus, ghost.authenPass, ghost.acctStatus, ghost.sinkWrites, ghost.sinkAtReply, ghost.scopeArg, ghost.cmpOK, ghost.cmpCalls, ghost.lookups, ghost.lookedUp
 //@   ensures[C17,C20] ghost.wgDones == old(ghost.wgDones) + 1
 //@   ensures[C07,C13,C17] ghost.closed == old(ghost.closed) + 1
 //@   ensures[C20] ghost.gauge == upd(old(ghost.gauge), waitgroupActive, old(ghost.gauge)[waitgroupActive] - 1)
